@@ -124,4 +124,8 @@ func runC12(c *Ctx) {
 		c.Check("C12.R1", "apply-"+typ+":refusal-carries-nil-model", ok, f.Pos(), "a refused operation yields an error and no state")
 	}
 	c.Assume("no unsafe / cgo / reflection-based writes in module code; values of type error expose no mutable reference to an input; encoding/json.Marshal, fmt, slog and the other externals in the printed table do not write through their arguments; json-patch Apply works on its own decoded copy (it receives freshly marshalled bytes)")
+	// "a refused operation yields an error and no state", and a patch list that fails leaves the previous document in
+	// the degraded state: at the level of the applier these are the return-shape and field-provenance rules of the state
+	// fold (C01.R1 / C01.P1: the document of an accepted model is the previous one, a fresh one, or the composer's result)
+	runC01(c)
 }
